@@ -321,6 +321,10 @@ fn conc_cmd_strategy() -> impl Strategy<Value = Cmd> {
         1 => k.clone().prop_map(|k| Cmd::Remove { k }),
         // (two sessions creating the same user with different tokens: the user's token key is written by both)
         1 => Just(Cmd::CreateUser { name: "u1".to_string() }),
+        // a database created by one session while another one already writes into it (key "x1/a" = key a of database
+        // x1: the session selects x1, writes, and selects d again; before x1 exists that write is refused)
+        1 => Just(Cmd::CreateDb { name: "x1".to_string() }),
+        1 => Just(Cmd::Set { k: "x1/a".to_string() }),
     ]
 }
 
@@ -354,6 +358,14 @@ pub fn run_conc_case(ctx: &Ctx, case: &ConcCase) -> Outcome {
         for (pi, p) in case.programs.iter().enumerate() {
             let mut lines = vec![format!("auth {} {}", crate::node::USER, crate::node::PWD), "use-db d tok".to_string()];
             for (ci, cmd) in p.iter().enumerate() {
+                if let Cmd::Set { k } = cmd {
+                    if let Some((db, key)) = k.split_once('/') {
+                        lines.push(format!("use-db {} tok-{}", db, db));
+                        lines.push(format!("set {} p{}c{}", key, pi, ci));
+                        lines.push("use-db d tok".to_string());
+                        continue;
+                    }
+                }
                 lines.push(match cmd {
                     Cmd::CreateUser { name } => format!("create-user {} tok-p{}c{}", name, pi, ci),
                     _ => render(cmd, &format!("p{}c{}", pi, ci), 0),
@@ -386,7 +398,7 @@ pub fn run_conc_case(ctx: &Ctx, case: &ConcCase) -> Outcome {
         if p != s {
             let pd = p.get("d").cloned().unwrap_or_default();
             let sd = s.get("d").cloned().unwrap_or_default();
-            let mut what = "database-list".to_string();
+            let mut what = if p.keys().collect::<Vec<_>>() != s.keys().collect::<Vec<_>>() { "database-list".to_string() } else { "a-database-created-by-a-concurrent-session".to_string() };
             let mut detail = format!("primary {:?} secondary {:?}", p.keys().collect::<Vec<_>>(), s.keys().collect::<Vec<_>>());
             for k in ["a", "n", "$$user_u1"] {
                 if pd.get(k) != sd.get(k) {
